@@ -84,3 +84,29 @@ def challengeOf (cd : Codecs F G1 G2) (H : List UInt8 → F) (t : Transcript F G
   H (t.bytes cd)
 
 end ZkVerif
+
+namespace ZkVerif
+
+/-! ### `ChallengeBuilder::finish` after hashing, and `ChannelId::to_scalar`
+
+Both read 32 bytes as four `u64::from_le_bytes` limbs and call `Scalar::from_raw`, which reduces the
+256-bit little-endian integer modulo the field order. -/
+
+/-- `u64::from_le_bytes` (any number of bytes) -/
+def leNat : List UInt8 → Nat
+  | [] => 0
+  | b :: bs => b.toNat + 256 * leNat bs
+
+/-- the integer `Scalar::from_raw([l0, l1, l2, l3])` stands for before reduction -/
+def fromLimbs : List Nat → Nat
+  | [] => 0
+  | l :: ls => l + 2 ^ 64 * fromLimbs ls
+
+/-- the four limbs the code cuts out of a digest: bytes 0..8, 8..16, 16..24, 24..32 -/
+def limbsOf (d : List UInt8) : List Nat :=
+  [leNat (d.take 8), leNat ((d.drop 8).take 8), leNat ((d.drop 16).take 8), leNat ((d.drop 24).take 8)]
+
+/-- `finish` / `to_scalar` as a natural number below `modulus` -/
+def rawScalar (modulus : Nat) (d : List UInt8) : Nat := fromLimbs (limbsOf d) % modulus
+
+end ZkVerif
